@@ -58,7 +58,7 @@ func openTicket(r *rand.Rand) []byte {
 //	"prefix"   random keys over a tiny alphabet (maximal prefix sharing)
 //	"ticket"   keys under the ticket prefix, values are ticket records (closed and open)
 //	"random"   random binary keys of 1..40 bytes
-func newConc(seed int64, nkeys, nvals int, class string, emptyVal bool) *conc {
+func newConc(seed int64, nkeys, nvals int, class string, emptyVal bool, force ...bool) *conc {
 	r := rand.New(rand.NewSource(seed))
 	c := &conc{kidx: map[string]int{}, vidx: map[string]int{}, heights: map[int]int64{}, class: class}
 	set := map[string]bool{}
@@ -153,7 +153,9 @@ func newConc(seed int64, nkeys, nvals int, class string, emptyVal bool) *conc {
 		c.vals = append(c.vals, v)
 		c.vidx[string(v)] = j
 	}
-	if emptyVal && nvals >= 2 && r.Intn(2) == 0 {
+	// one model value is the empty byte string: in half of the tables, or always (force: C02 wants an
+	// overwrite with the empty value under every configuration in every run)
+	if emptyVal && nvals >= 2 && (r.Intn(2) == 0 || (len(force) > 0 && force[0])) {
 		j := 1 + r.Intn(nvals)
 		delete(c.vidx, string(c.vals[j-1]))
 		c.vals[j-1] = []byte{}
